@@ -40,6 +40,15 @@ pub struct Case {
 }
 
 pub fn opts_for(ent: &EntitySpec, extra_polls: usize) -> DrainOpts {
+    if light() {
+        return DrainOpts {
+            max_bytes: 6000,
+            keep_bytes: 16_384,
+            max_frames: 64,
+            extra_polls,
+            ..Default::default()
+        };
+    }
     DrainOpts {
         max_bytes: if ent.len > (1 << 20) { 300_000 } else { 1 << 21 },
         keep_bytes: 1 << 21,
